@@ -40,9 +40,11 @@ type C14Episode struct {
 }
 
 type C14Plan struct {
-	HeartbeatMs int          `json:"heartbeat_ms"` // 0 = no OnCron heart-beats
-	Episodes    []C14Episode `json:"episodes"`
-	Tape        []int        `json:"tape"`
+	HeartbeatMs int `json:"heartbeat_ms"` // 0 = no OnCron heart-beats
+	// GettyOrder: the transport reconnects the way dubbo-getty does (see simnet)
+	GettyOrder bool         `json:"getty_order,omitempty"`
+	Episodes   []C14Episode `json:"episodes"`
+	Tape       []int        `json:"tape"`
 }
 
 func genC14(seed uint64, tier string) *C14Plan {
@@ -55,6 +57,7 @@ func genC14(seed uint64, tier string) *C14Plan {
 	if g.Bool() {
 		p.HeartbeatMs = simkit.Pick(g, []int{5000, 15000})
 	}
+	p.GettyOrder = g.Bool()
 	for i := 0; i < n; i++ {
 		var e C14Episode
 		nc := g.Range(1, 12)
@@ -87,12 +90,12 @@ type c14Caller struct {
 	seenByTC bool
 	// writeFailed: the write of the request was refused (kind "werr")
 	writeFailed bool
-	deliv    []time.Duration // instants a reply for this request was handed to the client's handler
-	resp     interface{}
-	err      error
-	done     bool
-	doneAt   time.Duration
-	panicked interface{}
+	deliv       []time.Duration // instants a reply for this request was handed to the client's handler
+	resp        interface{}
+	err         error
+	done        bool
+	doneAt      time.Duration
+	panicked    interface{}
 }
 
 func parkedInResponseDelivery() int {
@@ -122,9 +125,9 @@ func runC14(t *testing.T, seed uint64, planJSON []byte, tier string) (res *Resul
 		plan = genC14(seed, tier)
 		tape = simkit.NewTape(seed)
 	}
-	res.Harness = runBubble(t, func(t *testing.T) {
+	res.Harness = runBubbleP(t, plan, func(t *testing.T) {
 		w := bootRemoting(seed, tape, BootCfg{LoadBalance: "RandomLoadBalance", CommitRetry: 1, RollbackRetry: 1},
-			simnet.Config{FragmentPct: 15, Reconnect: true, ReconnectAfter: 3 * time.Second, Heartbeat: time.Duration(plan.HeartbeatMs) * time.Millisecond, ParkWrites: true})
+			simnet.Config{FragmentPct: 15, Reconnect: true, ReconnectAfter: 3 * time.Second, Heartbeat: time.Duration(plan.HeartbeatMs) * time.Millisecond, ParkWrites: true, GettyOrder: plan.GettyOrder})
 		sim, tc, net := w.Sim, w.TC, w.Net
 		sim.Known = loadKnown("C14")
 		sim.MaxStep = 2000000
@@ -241,7 +244,7 @@ func runC14(t *testing.T, seed uint64, planJSON []byte, tier string) (res *Resul
 		// callers of kind "werr": the write of their request meets an error (the
 		// request never leaves the client)
 		net.WriteHookFrame = func(sid int, f *simtc.Frame) error {
-			if f.Body.Code == simtc.TGlobalBegin && callers != nil {
+			if f.Body != nil && f.Body.Code == simtc.TGlobalBegin && callers != nil {
 				if c := callers[f.Body.Name]; c != nil && c.act == "werr" {
 					c.writeFailed = true
 					return errors.New("simnet: write failed (injected)")
